@@ -12,7 +12,10 @@
 (*    again to report the size [fails: report the size seen before]         *)
 (* Objects: ids; an object may have one external owner (the adding thread)  *)
 (* which drops its reference later.  The callback and the destructor are    *)
-(* user code: they may call back into the container (size()).               *)
+(* user code: they may call back into the container: size() (reenter 1: from *)
+(* the destructor, 2: from the callback) or destroyObjects() itself (3: from *)
+(* the destructor, 4: from the callback; one level of nesting: the inner     *)
+(* sweep works on what the outer one left in the container).                 *)
 (* Operation codes: 0 add (keeping an external reference) 1 drop 2 destroy  *)
 (* 3 size 4 add_temp (no external owner).                                   *)
 (***************************************************************************)
@@ -29,7 +32,8 @@ Threads == 1..Len(prog)
 NoEv == [t |-> 0, k |-> "init", o |-> "", i |-> 0, v |-> 0, w |-> 0]
 E(t, k, o, i, v, w) == [t |-> t, k |-> k, o |-> o, i |-> i, v |-> v, w |-> w]
 Obj(t) == 4 * (t - 1) + th[t].opi
-Th0 == [pc |-> "idle", op |-> 0, opi |-> 1, res |-> 0, mine |-> 0, sel |-> <<>>, idx |-> 1, back |-> "", o |-> 0, threw |-> FALSE]
+Th0 == [pc |-> "idle", op |-> 0, opi |-> 1, res |-> 0, mine |-> 0, sel |-> <<>>, idx |-> 1, back |-> "", o |-> 0, threw |-> FALSE,
+        nest |-> FALSE, osel |-> <<>>, oidx |-> 1, ores |-> 0, oback |-> "", othrew |-> FALSE]
 Init0(p, c) == [prog |-> p, cfg |-> c, vec |-> <<>>, ext |-> {}, alive |-> {}, dl |-> 0, th |-> [t \in 1..Len(p) |-> Th0],
                 gh |-> [destroyed |-> {}, dbl |-> FALSE, owned |-> FALSE, underlock |-> FALSE, cbd |-> {}, cbbad |-> FALSE, added |-> {}],
                 ev |-> NoEv]
@@ -46,6 +50,16 @@ SeqSet(q) == {q[j] : j \in 1..Len(q)}
 Sel(q) == SelectSeq(q, LAMBDA x : IF SoleOwnerOnly THEN x \notin ext ELSE TRUE)
 Minus(q, S) == SelectSeq(q, LAMBDA x : x \notin S)
 L(t, yes, no) == IF cfg.locked THEN yes ELSE no
+\* a destroyObjects frame of thread t ends with result r: back to the caller, or - for a nested call made by user code - back
+\* into the outer sweep
+Leave(t, r) == IF th[t].nest
+                 THEN [th[t] EXCEPT !.pc = th[t].oback, !.sel = th[t].osel, !.idx = th[t].oidx, !.res = th[t].ores, !.threw = th[t].othrew,
+                                    !.nest = FALSE, !.osel = <<>>, !.oidx = 1, !.ores = 0, !.oback = "", !.othrew = FALSE]
+                 ELSE [th[t] EXCEPT !.pc = "ret", !.res = r]
+\* user code of the outer sweep calls destroyObjects(): a new frame; cont / ci / cs = where and with what the outer sweep continues
+Enter(t, cont, ci, cs) == [th[t] EXCEPT !.pc = "x1", !.nest = TRUE, !.oback = cont, !.oidx = ci, !.osel = cs, !.ores = th[t].res, !.othrew = th[t].threw,
+                                        !.sel = <<>>, !.idx = 1, !.threw = FALSE]
+NestHere(t, m) == cfg.reenter = m /\ cfg.locked /\ ~th[t].nest
 
 Call(t) ==
     /\ th[t].pc = "idle" /\ th[t].opi <= Len(prog[t])
@@ -104,7 +118,7 @@ Destroy(t) == LET s == th[t].sel
           /\ Upd(t, [th[t] EXCEPT !.sel = sl, !.idx = 1, !.res = Len(vec) - Len(sl),
                                   !.pc = IF sl = <<>> THEN "x7" ELSE (IF ClearOutsideLock THEN "x2" ELSE "dt")])
        /\ ev' = E(t, "mtimed", "dl", 1, 1, 0) /\ UNCHANGED <<ext, alive, gh>> /\ UC
-    \/ /\ th[t].pc = "x1" /\ dl # 0 /\ Timeouts /\ Upd(t, [th[t] EXCEPT !.pc = "ret", !.res = -1])
+    \/ /\ th[t].pc = "x1" /\ dl # 0 /\ Timeouts /\ Upd(t, Leave(t, -1))
        /\ ev' = E(t, "mtimed", "dl", 1, 0, 0) /\ UNCHANGED <<vec, ext, alive, dl, gh>> /\ UC
     \/ /\ th[t].pc = "x1n" /\ LET sl == Sel(vec) IN
           /\ vec' = Minus(vec, SeqSet(sl))
@@ -118,6 +132,8 @@ Destroy(t) == LET s == th[t].sel
        /\ gh' = [gh EXCEPT !.cbd = @ \cup {s[i]}, !.underlock = @ \/ dl = t]
        /\ Upd(t, IF cfg.reenter = 2 /\ cfg.locked
                    THEN [th[t] EXCEPT !.pc = "s1", !.back = IF i < Len(s) THEN "cb" ELSE "dt", !.idx = IF i < Len(s) THEN i + 1 ELSE 1]
+                   ELSE IF NestHere(t, 4)
+                   THEN Enter(t, IF i < Len(s) THEN "cb" ELSE "dt", IF i < Len(s) THEN i + 1 ELSE 1, s)
                    ELSE [th[t] EXCEPT !.pc = IF i < Len(s) THEN "cb" ELSE "dt", !.idx = IF i < Len(s) THEN i + 1 ELSE 1])
        /\ ev' = E(t, "cb", "obj", s[i], 0, 0) /\ UNCHANGED <<vec, ext, alive, dl>> /\ UC
     \* C20: the callback throws: the remaining callbacks of the batch are skipped, the selected objects are destroyed while the
@@ -127,19 +143,23 @@ Destroy(t) == LET s == th[t].sel
        /\ ev' = E(t, "cbthrow", "obj", s[i], 0, 0) /\ UNCHANGED <<vec, ext, alive, dl, gh>> /\ UC
     \* destructors, one per selected object (user code; with reenter = 1 it calls size())
     \/ /\ th[t].pc = "dt" /\ alive' = alive \ {s[i]} /\ gh' = DtorG(t, s[i])
-       /\ LET nxt == IF i < Len(s) THEN "dt" ELSE IF th[t].threw THEN "ret" ELSE (IF ClearOutsideLock THEN L(t, "x5", "ret") ELSE "x2b") IN
+       /\ LET nxt == IF i < Len(s) THEN "dt" ELSE IF th[t].threw THEN "ret" ELSE (IF ClearOutsideLock THEN L(t, "x5", "ret") ELSE "x2b")
+              ni == IF i < Len(s) THEN i + 1 ELSE 1
+              ns == IF i < Len(s) THEN s ELSE <<>> IN
           Upd(t, IF cfg.reenter = 1 /\ cfg.locked
-                   THEN [th[t] EXCEPT !.pc = "s1", !.back = nxt, !.idx = IF i < Len(s) THEN i + 1 ELSE 1, !.sel = IF i < Len(s) THEN @ ELSE <<>>]
-                   ELSE [th[t] EXCEPT !.pc = nxt, !.idx = IF i < Len(s) THEN i + 1 ELSE 1, !.sel = IF i < Len(s) THEN @ ELSE <<>>])
+                   THEN [th[t] EXCEPT !.pc = "s1", !.back = nxt, !.idx = ni, !.sel = ns]
+                   ELSE IF NestHere(t, 3) THEN Enter(t, nxt, ni, ns)
+                   ELSE IF nxt = "ret" /\ th[t].nest THEN Leave(t, th[t].res)
+                   ELSE [th[t] EXCEPT !.pc = nxt, !.idx = ni, !.sel = ns])
        /\ ev' = E(t, "dtor", "obj", s[i], 0, 0) /\ UNCHANGED <<vec, ext, dl>> /\ UC
     \* knob variant: unlock only after the destructors
     \/ /\ th[t].pc = "x2b" /\ dl' = 0 /\ Upd(t, Pc(t, "x5")) /\ ev' = E(t, "munlock", "dl", 1, 0, 0) /\ UNCHANGED <<vec, ext, alive, gh>> /\ UC
     \* second timed acquisition, only to report the size
     \/ /\ th[t].pc = "x5" /\ dl = 0 /\ dl' = t /\ Upd(t, [th[t] EXCEPT !.pc = "x6", !.res = Len(vec), !.back = ""])
        /\ ev' = E(t, "mtimed", "dl", 1, 1, 0) /\ UNCHANGED <<vec, ext, alive, gh>> /\ UC
-    \/ /\ th[t].pc = "x5" /\ dl # 0 /\ Timeouts /\ Upd(t, [th[t] EXCEPT !.pc = "ret", !.back = ""])
+    \/ /\ th[t].pc = "x5" /\ dl # 0 /\ Timeouts /\ Upd(t, [Leave(t, th[t].res) EXCEPT !.back = ""])
        /\ ev' = E(t, "mtimed", "dl", 1, 0, 0) /\ UNCHANGED <<vec, ext, alive, dl, gh>> /\ UC
-    \/ /\ th[t].pc \in {"x6", "x7"} /\ dl' = 0 /\ Upd(t, [th[t] EXCEPT !.pc = "ret", !.res = Len(vec)])
+    \/ /\ th[t].pc \in {"x6", "x7"} /\ dl' = 0 /\ Upd(t, Leave(t, Len(vec)))
        /\ ev' = E(t, "munlock", "dl", 1, 0, 0) /\ UNCHANGED <<vec, ext, alive, gh>> /\ UC
 
 Step(t) == Call(t) \/ Ret(t) \/ Add(t) \/ Size(t) \/ Drop(t) \/ DSolo(t) \/ Destroy(t)
@@ -158,7 +178,7 @@ CallbackFirst == ~gh.cbbad
 \* C16: no deadlock (re-entrant user code cannot self-deadlock)
 NoDeadlock == (\A t \in Threads : ~ENABLED Step(t)) => AllDone
 \* C16: nothing is lost or duplicated: every object added is in the container, in flight in a sweep, or destroyed
-NoLossNoDup == gh.added = SeqSet(vec) \cup (UNION {SeqSet(th[t].sel) : t \in Threads}) \cup gh.destroyed
+NoLossNoDup == gh.added = SeqSet(vec) \cup (UNION {SeqSet(th[t].sel) \cup SeqSet(th[t].osel) : t \in Threads}) \cup gh.destroyed
                           \cup {x \in gh.added : \E t \in Threads : th[t].o = x /\ th[t].pc \in {"a1", "a1n", "dsolo"}}
                /\ \A i, j \in 1..Len(vec) : i # j => vec[i] # vec[j]
 \* C16: at the end whatever has no owner left is destroyed by the container's destructor: everything unowned is either
